@@ -25,7 +25,8 @@ CHECKS = {
              "encodings, dtw_ndim.*, the serial C distance-matrix routine, and a direct ctypes call of "
              "dtw_distance(_ndim) compiled from /repo's C sources with asserts enabled); TLC judges agreement of all "
              "routes (both infinite or the same exact-domain value, 4 ulp) and notes where the reference deviates "
-             "from the specification (decided under C01/C03).",
+             "from the specification (decided under C01/C03). Options are drawn independently (use_pruning also with "
+             "penalties on unequal lengths, max_step, max_dist, max_length_diff; thresholds on and off the cost lattice).",
         note="Trusted: TLC, exact-domain encoding, ctypes struct layout of DTWSettings (checked against dd_dtw.h by "
              "construction). Only settings accepted by both engines are compared (no custom inner distance, "
              "max_length_diff != 0)."),
@@ -36,7 +37,8 @@ CHECKS = {
              "never cuts a cell whose optimum is within the bound and returns DistSpec; a self-test requires TLC to refute "
              "the psi-unaware design. Every recorded result of distance, distance_fast, warping_paths(_fast, compact), "
              "distance_matrix(_fast) and the direct C call with max_dist / use_pruning is judged against the spec "
-             "(thresholds at half-integers of the cost lattice; pruning wherever ED is a valid bound, DTW = ED included).",
+             "(thresholds at half-integers of the cost lattice; pruning wherever ED is a valid bound, DTW = ED included, "
+             "also combined with an explicit max_dist).",
         note="Trusted: TLC, exact-domain encoding. Thresholds within a rounding width of the true distance are not explored "
              "(the property excludes them), except the pruning bound which equals attainable costs by construction."),
     "C04": dict(
@@ -46,7 +48,7 @@ CHECKS = {
              "psi_neg variants, via use_c) and a ctypes call writing the compact buffer of exactly the advertised size "
              "followed by dtw_expand_wps / dtw_expand_wps_slice are recorded and TLC judges every cell against the "
              "cell-wise optimum (with the freedom above max_dist, the -1 marks and unread border cells), the shape and "
-             "the returned distance.",
+             "the returned distance; thresholds also exactly on the cost lattice.",
         note="Trusted: TLC, exact-domain encoding, ctypes layout.."),
     "C05": dict(
         level="model_checking", design="DESIGN.md 4/C05",
@@ -55,9 +57,10 @@ CHECKS = {
              "best_path2, warping_path, warping_path_fast, best_path_compact, dtw_ndim.warping_path, warp and a ctypes "
              "call of dtw_warping_path_ndim (index arrays of exactly l1+l2) are judged by TLC clause by clause: range, "
              "steps, band, max_step, psi-relaxed start and end (L-shaped), cost along the path = optimum; any optimal "
-             "admissible path is accepted, engines are not compared with each other.",
+             "admissible path is accepted, engines are not compared with each other. Paths traced from custom start "
+             "cells (dtw_best_path_customstart, best_path(row, col)) must be optimal partial paths ending there.",
         note="Trusted: TLC, exact-domain encoding. Known finding: with psi-relaxation at the end the back-tracking may miss "
-             "the chosen end point (end/cost/empty clauses only; see known_findings.jsonl)."),
+             "the chosen end point (clauses end / empty only; see known_findings.jsonl)."),
     "C09": dict(
         level="model_checking", design="DESIGN.md 4/C09",
         technique="TLA+ definitions LBKeogh/ED model-checked for the sandwich; recorded bounds of both engines trace-validated by TLC",
@@ -92,7 +95,8 @@ CHECKS = {
              "complete block space (n <= 5/6) is then executed on the real code: three length functions, the index "
              "list, the compact result through 6-9 routes (Python, C serial, Cython, direct dtw_distances_* calls; list, "
              "2-D and 3-D array containers; ndim 1-2), square forms (mirrored / only_triu) and distance_array_index, "
-             "and TLC judges layout and every value (values from DTWCore).",
+             "and TLC judges layout and every value (values from DTWCore, settings incl. asymmetric psi, max_step, "
+             "max_dist, max_length_diff).",
         note="Trusted: TLC, exact-domain encoding, ctypes layouts."),
     "C07": dict(
         level="model_checking", design="DESIGN.md 4/C07",
@@ -133,7 +137,8 @@ CHECKS = {
              "selected series, that the averaging step stays in the value range, does not increase the sum of squared DTW "
              "costs and fixes identical series. Recorded results of dba (Python; Python averaging over C paths), "
              "dtw_cc.dba/dba_ndim (list and matrix containers), direct dtw_dba_ptrs/_matrix calls and dba_loop are "
-             "rationalised exactly and accepted iff SOME choice of optimal paths explains them; loop steps <= max_it.",
+             "rationalised exactly and accepted iff SOME choice of optimal paths explains them; loop steps <= max_it; "
+             "the sampled-path variant (nb_prob_samples > 0) is judged by the range clause.",
         note="Trusted: TLC; exact rationalisation of float averages (denominators <= 5000, 1e-11). Engines agree where "
              "optimal paths are unique because both must be explained by the same unique choice."),
     "C13": dict(
@@ -153,7 +158,7 @@ CHECKS = {
              "the slice: heap = TopK of the candidates seen, threshold never cuts a member of the answer, every answer = "
              "fresh TopK; a self-test refutes the design that does not cut a cached answer at k. Real histories of 1-4 "
              "calls (kbest_matches, best_match, align, *_fast, reset; k in {None,1,2,3,N,N+1}) on one object x use_lb x "
-             "use_c x max_dist/max_value x window/penalty/psi are judged call by call against TopK of the "
+             "use_c x max_dist/max_value (also both at once, on and off the lattice) x window/penalty/psi are judged call by call against TopK of the "
              "specification's distances (indices up to ties).",
         note="Trusted: TLC, exact-domain encoding."),
     "C15": dict(
@@ -165,8 +170,9 @@ CHECKS = {
              "runs: the public merge_hook events and the returned dictionary of Hierarchical / HierarchicalTree fits "
              "(given matrices through dists_fun, real series through dtw.distance_matrix(_fast), order_hook, "
              "side-swapping merge_hook, re-used model objects) are replayed: every event must be an enabled Merge, the "
-             "end state stuck, the dictionary equal to the state; LinkageTree is compared with SciPy on the condensed "
-             "vector in the documented pair order.",
+             "end state stuck, the dictionary equal to the state (max_dist between and exactly at attainable "
+             "distances, tree objects fitted repeatedly); LinkageTree (also with only_triu) is compared with SciPy on "
+             "the condensed vector in the documented pair order.",
         note="Trusted: TLC; SciPy's linkage as the oracle the property itself names."),
     "C16": dict(
         level="model_checking", design="DESIGN.md 4/C16",
@@ -196,9 +202,10 @@ CHECKS = {
              "predecessors, restart/keep) always yields histories satisfying HistoryOK. Real runs: the matrix of "
              "warping_paths_affinity (Python, use_c, fast, compact + full-range expansion) judged cell by cell, and "
              "local_concurrences histories of kbest_matches calls (k, minlen, buffer, restart) for Python / C / "
-             "C-compact judged by HistoryOK.",
+             "C-compact judged by HistoryOK, which includes that a search on an unmasked matrix ends in a cell holding "
+             "the maximum.",
         note="Trusted: TLC; np.exp(-ln2*d^2) within 1e-6 relative of the dyadic value at the chosen scale; tau placed "
-             "between attainable affinities."),
+             "between and exactly at attainable affinities."),
     "C19": dict(
         level="model_checking", design="DESIGN.md 4/C19",
         technique="TLA+ Similarity: parameter-resolution table and values/exp-arguments as exact rationals model-checked; recorded values (or recovered arguments) trace-validated",
@@ -216,7 +223,7 @@ CHECKS = {
         technique="TLA+ Purity (store unchanged, results functional in content) with an impure-routine self-test; recorded call histories on persistent shared objects trace-validated",
         text="Seeded histories of calls drawn from 20 routines over shared series, collections and a settings dictionary, "
              "with the container kind (list, tuple, array('d'), ndarray, strided / negative-stride / F-ordered / "
-             "transposed views, list or tuple of arrays, 2-D array, SeriesContainer) and the engine re-drawn per call, "
+             "transposed views, list or tuple of arrays incl. strided members, 2-D array, SeriesContainer) and the engine re-drawn per call, "
              "repeated calls, and a second pass with NumPy hidden; contents of EVERY object are recorded before and "
              "after every call. TLC judges: no object changed; equal (routine, content, settings) => equal result "
              "across kinds, engines, NumPy presence and history; distance results equal DTWCore.",
